@@ -37,6 +37,16 @@ var errExempt = map[string]string{
 	"internal/flatten/sortref.SplitKey.IsStatusCodeResponse/Atoi": "the error is the result: err == nil is what the predicate returns",
 }
 
+// errExemptPkg: the same deliberate discards, keyed by package and callee (the discard may live in any helper of the package).
+var errExemptPkg = map[string]string{
+	"internal/flatten/replace/PathUnescape":   "lenient decoding of an analyzer key: an invalid escape leaves an empty path and the following jsonpointer lookup fails with an error",
+	"internal/flatten/replace/MarshalJSON":    "re-marshalling of a value that was unmarshalled from JSON cannot fail; the following UnmarshalJSON error is propagated",
+	"internal/flatten/replace/Marshal":        "re-marshalling of a value that was unmarshalled from JSON cannot fail; the following UnmarshalJSON error is propagated",
+	"internal/flatten/normalize/PathUnescape": "lenient decoding of $ref strings ('%' is outside the alphabet)",
+	"internal/flatten/normalize/Parse":        "url.Parse only fails on an invalid '%' escape, outside the alphabet",
+	"internal/flatten/schutils/FromDynamicJSON": "cloning a schema that was itself loaded from JSON cannot fail",
+}
+
 func errRules(c *Ctx) {
 	var roots []*core.FuncInfo
 	for _, n := range []string{"Flatten", "Schema"} {
@@ -75,6 +85,7 @@ func errRules(c *Ctx) {
 			key := fi.QName() + "/" + callee.Name()
 			pos := c.P.Pos(call.Pos())
 			exemptKey := fi.QName() + "/" + callee.Name()
+			pkgKey := strings.TrimPrefix(strings.TrimPrefix(fi.Pkg.PkgPath, core.ModPath), "/") + "/" + callee.Name()
 			parent := pm[call]
 			for {
 				if p, ok := parent.(*ast.ParenExpr); ok {
@@ -83,9 +94,20 @@ func errRules(c *Ctx) {
 				}
 				break
 			}
+			assignedToBlank := false
+			if as, isAs := parent.(*ast.AssignStmt); isAs && len(as.Lhs) > errIdx {
+				if id, isID := core.Unparen(as.Lhs[errIdx]).(*ast.Ident); isID && id.Name == "_" {
+					assignedToBlank = true
+				}
+			}
 			verdict := func(ok bool, why string) {
 				if !ok {
 					if reason, ex := errExempt[exemptKey]; ex {
+						c.S.Exempt("C09", "ERR-DROP", key, pos, reason)
+						return
+					}
+					// the same deliberate discard moved into a helper of the same package
+					if reason, ex := errExemptPkg[pkgKey]; ex && assignedToBlank {
 						c.S.Exempt("C09", "ERR-DROP", key, pos, reason)
 						return
 					}
